@@ -235,6 +235,10 @@ def tree(block, conv):
             core = 1 if mc_ir.spec_kind(op) == "KDM" else 0
             out.append(("RLeaf", conv.oid(op), core, False, [root_of(v, conv) for v in op.inputs if is_memref(v)],
                         [root_of(v, conv) for v in op.outputs if is_memref(v)]))
+        elif n == "memref.dealloc":
+            # every core runs the dealloc; against the DM / compute op still using the buffer it acts like a
+            # write from a third party (pseudo core 2)
+            out.append(("RLeaf", conv.oid(op), 2, False, [], [root_of(op.operands[0], conv)]))
         elif n == "scf.yield":
             continue
         else:
